@@ -136,6 +136,47 @@ def run(ctx):
             if got == d:
                 ctx.counterexample('fnmatch exclude=%r does not behave as with DOTMATCH on %r' % (pat, name),
                                    {'name': name, 'pattern': pat, 'got': got})
+    # ... and the DOTGLOB forced on exclusions never leaks into the inclusions of the same call, wherever the exclusion stands
+    # (first, last, between; list, SPLIT, BRACE; NEGATEALL's implied `**`; the compiled object, filter and translate)
+    import re as _re
+    for mode, api in (('glob', Gm), ('fnmatch', Fm)):
+        base = (Gm.GLOBSTAR if mode == 'glob' else 0) | api.FORCEUNIX
+        names_ = ['.a', 'a', '.ab', 'b'] + (['x/.a', 'x/a', '.x/a'] if mode == 'glob' else [])
+        incls = ['*', '?a', '[.]a', '*a', '?*'] + (['**/*', '*/*', '**'] if mode == 'glob' else [])
+        mt = (lambda n_, p_, fl_: Gm.globmatch(n_, p_, flags=fl_)) if mode == 'glob' else (lambda n_, p_, fl_: Fm.fnmatch(n_, p_, flags=fl_))
+        for inc in incls:
+            for nm_ in names_:
+                want = mt(nm_, inc, base)
+                forms = {
+                    'list, exclusion first': (['!zz', inc], api.NEGATE),
+                    'list, exclusion last': ([inc, '!zz'], api.NEGATE),
+                    'list, exclusion between': ([inc, '!zz', inc + ''], api.NEGATE),
+                    'SPLIT, exclusion first': ('!zz|' + inc, api.NEGATE | api.SPLIT),
+                    'SPLIT, exclusion last': (inc + '|!zz', api.NEGATE | api.SPLIT),
+                    'BRACE': ('{!zz,' + inc + '}', api.NEGATE | api.BRACE),
+                    'MINUSNEGATE first': (['-zz', inc], api.NEGATE | api.MINUSNEGATE),
+                    'two exclusions first': (['!zz', '!yy', inc], api.NEGATE),
+                }
+                for how, (pl_, xf) in forms.items():
+                    n += 1
+                    got = mt(nm_, pl_, base | xf)
+                    gotc = api.compile(pl_, flags=base | xf).match(nm_)
+                    gotf = bool((Gm.globfilter if mode == 'glob' else Fm.filter)([nm_], pl_, flags=base | xf))
+                    pos_, neg_ = api.translate(pl_, flags=base | xf)
+                    gott = any(_re.fullmatch(r_, nm_) for r_ in pos_) and not any(_re.fullmatch(r_, nm_) for r_ in neg_)
+                    if not (got == gotc == gotf == gott == want):
+                        ctx.counterexample('%s %r (%s) on %r: match=%r compile=%r filter=%r translate=%r but the inclusion pattern alone gives %r (the dot rule of an inclusion does not depend on the exclusions around it)' % (
+                            mode, pl_, how, nm_, got, gotc, gotf, gott, want), {'api': mode, 'patterns': pl_, 'name': nm_, 'flags': corr.flag_names(base | xf)})
+                        break
+        # NEGATEALL: the implied match-everything pattern follows the dot rule of the call
+        for nm_ in names_:
+            for dotf in (0, api.DOTMATCH):
+                n += 1
+                got = mt(nm_, '!zz', base | api.NEGATE | api.NEGATEALL | dotf)
+                want = mt(nm_, '**' if mode == 'glob' else '*', base | dotf)
+                if got != want:
+                    ctx.counterexample('%s(%r, "!zz", NEGATE|NEGATEALL%s) = %r but the match-everything pattern alone gives %r' % (
+                        mode, nm_, '|DOTMATCH' if dotf else '', got, want), {'api': mode, 'name': nm_, 'flags': corr.flag_names(base | api.NEGATE | api.NEGATEALL | dotf)})
     # NODOTDIR: only the literal segment patterns `.` and `..` match them
     for name in ('.', '..', 'a/.', 'a/..', './a', '../a'):
         for pat in ('.*', '.?', '.[.]', '.', '..', 'a/.*', 'a/.', 'a/..', './a', '../a', '.*/a', '.@(x|.)'):
